@@ -383,6 +383,12 @@ class Bus (objects.DBusObject):
                 (name,),
             )
 
+        if name == 'org.freedesktop.DBus':
+            raise DError(
+                'org.freedesktop.DBus.Error.InvalidArgs',
+                'The name "%s" is reserved for the bus itself' % (name,),
+            )
+
         try:
             marshal.validateBusName(name)
         except error.MarshallingError as e:
